@@ -205,6 +205,10 @@ class T(object):
         return key + (slice(None),) * (len(s._shape) - nreal)
 
     def __getitem__(s, key):
+        if isinstance(key, T) and key.boolean:
+            if s.ndim != 1 or key.ndim != 1:
+                raise Unsupported('boolean-mask indexing on tensors with more than one axis')
+            return Filtered(s, key)
         if isinstance(key, T) and not key.boolean:
             # integer-array indexing on the first axis
             rest = s._shape[1:]
@@ -543,6 +547,12 @@ class _NPX(object):
     def array(self, x, dtype=None, copy=True, **kw):
         if isinstance(x, T):
             return x.copy()
+        if isinstance(x, list) and len(x) == 1 and isinstance(x[0], S):
+            gs = [g for g in x[0].e.free_symbols if g in GENERIC]
+            if len(gs) == 1:
+                g, n_ = gs[0], GENERIC[gs[0]]
+                e = x[0].e
+                return T((n_,), lambda idx: e.xreplace({g: idx[0]}))
         if _symbolic(x):
             return _np.array(x, dtype=object)
         return _np.array(x, dtype=dtype, **kw) if dtype is not None else _np.array(x, **kw)
@@ -963,6 +973,18 @@ class _MAShim(object):
 
 _MA = _MAShim()
 NPX = _NPX()
+
+
+GENERIC = {}     # generic loop index symbol -> number of iterations (see loader.symrange: a comprehension over a symbolic
+                 # range is executed once for a generic index; np.array of its one-element result is the whole sequence)
+
+
+class Filtered(object):
+    """the sub-sequence of a 1-D tensor selected by a boolean mask tensor (x[mask]); consumed by the pandas row collector"""
+
+    def __init__(self, base, mask):
+        self.base = base
+        self.mask = mask
 
 
 MASKED = {}      # label of an IndexedBase holding observations with missing values -> IndexedBase of 0/1 weights
